@@ -13,10 +13,10 @@ theorem go_succ (f : Nat) (c : Int) (n : Nat) :
     normalize.go (f + 1) c n = if c.tmod 10 = 0 ∧ n > 0 then normalize.go f (c.tdiv 10) (n - 1) else (c, n) := rfl
 
 theorem normalize_loop_eq (prof : Profile) : ∀ (F : Nat) (c : Int) (n f : Nat), n < F → n ≤ f → n < 256 →
-    Gen.K.normalize.loop1 prof F c n = .ok (normalize.go f c n)
+    Gen.K.normalize_loop1 prof F c n = .ok (normalize.go f c n)
   | 0, c, n, f, h, _, _ => absurd h (Nat.not_lt_zero _)
   | F + 1, c, n, f, h, hf, hn => by
-    unfold Gen.K.normalize.loop1
+    unfold Gen.K.normalize_loop1
     by_cases hc : c.tmod 10 = 0 ∧ n > 0
     · have hb : (decide (Int.tmod c 10 = 0) && decide (n > 0)) = true := by simpa using hc
       have hn0 := hc.2
